@@ -19,8 +19,11 @@ def unit_byte(ch, dt, k):
 
 
 class World:
-    def __init__(self, chans, initwin, pktsize, scale=1):
+    def __init__(self, chans, initwin, pktsize, scale=1, high=None, low=None):
         self.chans = list(chans)
+        self.high = None if high is None else high * scale
+        self.low = None if low is None else low * scale
+        self.pause_calls = {c: [] for c in chans}   # session callbacks
         self.initwin = initwin * scale
         self.pktsize = pktsize * scale
         self.scale = scale
@@ -64,7 +67,18 @@ class World:
             def exec_requested(self, command):
                 return True
 
+            def pause_writing(self):
+                w._on_pause(self.chan, 'pause')
+
+            def resume_writing(self):
+                w._on_pause(self.chan, 'resume')
+
         return SS()
+
+    def _on_pause(self, chan, what):
+        for ch, c in self.schan.items():
+            if c is chan:
+                self.pause_calls[ch].append(what)
 
     def start(self):
         w = self
@@ -95,6 +109,9 @@ class World:
                     window=self.initwin, max_pktsize=self.pktsize)
                 self.cchan[ch] = chan
                 self.schan[ch] = self._pending_sessions.pop(0)
+                if self.high is not None:
+                    self.schan[ch].set_write_buffer_limits(self.high,
+                                                           self.low)
 
         p.run(open_all())
         p.manual()
@@ -233,6 +250,9 @@ class World:
         if not obs['err']:
             obs['swin'] = {ch: self.schan[ch]._send_window // self.scale
                            for ch in self.chans}
+            if self.high is not None:
+                obs['spaused'] = {ch: bool(self.schan[ch]._send_paused)
+                                  for ch in self.chans}
             obs['rwin'] = {ch: self.cchan[ch]._recv_window // self.scale
                            for ch in self.chans}
             obs['buffered'] = {ch: sum(len(d) for d, _ in
@@ -282,6 +302,20 @@ class World:
                                f'{self.pktsize}')
         return bad
 
+    def writer_stuck(self, ch):
+        """The writing session was told pause_writing() and, although its
+        send buffer has drained to the low-water mark, never resume_writing():
+        a writer waiting in drain() waits for ever."""
+        c = self.schan[ch]
+        calls = self.pause_calls[ch]
+        if calls and calls[-1] == 'pause' and \
+                c._send_buf_len <= c._send_low_water:
+            return [f'C08 NoDeadlock: channel {ch}: the writing session was '
+                    f'paused (pause_writing) and is not resumed although '
+                    f'only {c._send_buf_len} bytes are buffered (low-water '
+                    f'mark {c._send_low_water}, high {c._send_high_water})']
+        return []
+
     def drain(self):
         """Resume every reader and deliver everything still in flight."""
         p = self.pair
@@ -316,14 +350,15 @@ def model_obs(st, chans):
                            for dt in (0, 1)} for ch in chans},
         'eofseen': {ch: ['EOF'] in at(st['dorder'], ch) for ch in chans},
         'swin': {ch: at(st['swin'], ch) for ch in chans},
+        'spaused': {ch: at(st['spaused'], ch) for ch in chans},
         'rwin': {ch: at(st['rwin'], ch) for ch in chans},
         'buffered': {ch: sum(len(c['ids']) for c in at(st['rbuf'], ch))
                      for ch in chans},
     }
 
 
-def replay(steps, chans, initwin, pktsize, scale=1):
-    w = World(chans, initwin, pktsize, scale).start()
+def replay(steps, chans, initwin, pktsize, scale=1, high=None, low=None):
+    w = World(chans, initwin, pktsize, scale, high, low).start()
     res = {'diverged': None, 'l1': [], 'script': []}
     try:
         for i, (lbl, st) in enumerate(steps):
@@ -355,6 +390,7 @@ def replay(steps, chans, initwin, pktsize, scale=1):
                 if w.eof_sent[ch] and 'EOF' not in w.order[ch]:
                     res['l1'].append(f'C07 EOF signalled on channel {ch} but '
                                      f'never delivered')
+                res['l1'] += w.writer_stuck(ch)
         res['lost'] = {k: type(v).__name__ for k, v in w.pair.lost.items()}
         res['loop_exceptions'] = [str(c.get('exception') or c.get('message'))
                                   for c in w.pair.loop.exceptions]
@@ -372,7 +408,7 @@ _SSTATE = {'open': 'open', 'eof_pending': 'eof_pending', 'eof': 'eof'}
 
 
 def record_natural(seed, chans, initwin, pktsize, nwrites=6, maxwrite=None,
-                   mode='mixed'):
+                   mode='mixed', high=1, low=0):
     """One real connection with len(chans) session channels.  The server
     writes from one asyncio task per channel (random data type, size and
     virtual delay, then EOF), the client runs one reader task per channel
@@ -384,7 +420,7 @@ def record_natural(seed, chans, initwin, pktsize, nwrites=6, maxwrite=None,
     from asyncssh import _verif
     rng = random.Random(seed)
     maxwrite = maxwrite or 2 * initwin + 3
-    w = World(chans, initwin, pktsize)
+    w = World(chans, initwin, pktsize, high=high, low=low)
     selfpause = {c: 0 for c in chans}     # self-pauses inside callbacks
     want_selfpause = 'nopi' not in mode
 
@@ -427,7 +463,7 @@ def record_natural(seed, chans, initwin, pktsize, nwrites=6, maxwrite=None,
         c = w.schan[ch]
         return {'swin': c._send_window,
                 'sbufN': sum(len(d) for d, _ in c._send_buf),
-                'sstate': c._send_state}
+                'sstate': c._send_state, 'spaused': bool(c._send_paused)}
 
     def rsnap(ch):
         c = w.cchan[ch]
@@ -626,6 +662,8 @@ def record_natural(seed, chans, initwin, pktsize, nwrites=6, maxwrite=None,
         if 'EOF' in w.order[ch] and (w.order[ch][-1] != 'EOF' or
                                      w.order[ch].count('EOF') > 1):
             l1.append(f'C07 EOFLast: data after EOF on channel {ch}')
+        if 's' not in p.lost:
+            l1 += w.writer_stuck(ch)
     if p.lost:
         l1.append(f'HonestNoError: connection lost: {p.lost}')
     if outcome != 'ok':
